@@ -182,7 +182,7 @@ namespace
         }
 
         // eroder parameters
-        double m_exp = rng.pick(std::vector<double>{ 0.3, 0.5, 1.0 });
+        double m_exp = rng.pick(std::vector<double>{ 0.3, 0.5, 0.5, 1.0, 1.0, 1.5, 2.0 });
         // exponents below / at / above one, including values closer to one than the Newton tolerance
         const std::vector<double> n_values{ 0.5, 0.8, 1.0, 1.0, 1.5, 2.0, 3.0, 4.0, 6.0, 0.9995, 1.0005, 0.99, 1.01, 0.99999, 1.00001 };
         double n_exp = multi ? 1.0 : rng.pick(n_values);
@@ -207,6 +207,16 @@ namespace
             eroder = std::make_unique<spl_t>(graph, kscalar, m_exp, n_exp, tol);
         }
 
+        // parameter getters reflect what was set
+        {
+            const auto& kc = eroder->k_coef();
+            bool okk = kc.size() == n;
+            for (std::size_t i = 0; okk && i < n; ++i)
+                okk = kc.flat(i) == kv[i];
+            if (!okk || eroder->area_exp() != m_exp || eroder->slope_exp() != n_exp || eroder->tolerance() != tol)
+                R.violation(R.want("C13") && !R.want("C12") ? "C13" : "C12", "parameter_getters",
+                            JObj().raw("operators", ops_json(ops)).s("detail", "k_coef() / area_exp() / slope_exp() / tolerance() do not return the configured values").str());
+        }
         const int nsteps = static_cast<int>(rng.range(1, 3));
         FlowInputs in;
         std::vector<double> prev_z;
@@ -278,7 +288,7 @@ namespace
                 }
                 if (rng.chance(0.3))
                 {
-                    m_exp = rng.pick(std::vector<double>{ 0.3, 0.5, 1.0 });
+                    m_exp = rng.pick(std::vector<double>{ 0.3, 0.5, 1.0, 1.5, 2.0 });
                     eroder->set_area_exp(m_exp);
                 }
                 if (!multi && rng.chance(0.4))
@@ -774,6 +784,15 @@ namespace
             double fmax = kmax * 0.5 / std::min(g.dx * g.dx, g.dy * g.dy);
             double stiff = dt * fmax;
             R.count(stiff > 1e3 ? "c14.stiff_steps" : "c14.moderate_steps");
+            {
+                // k_coef() returns the diffusivity in force (scalar broadcast to the grid shape)
+                auto kc = er->k_coef();
+                bool okk = kc.size() == n;
+                for (std::size_t i = 0; okk && i < n; ++i)
+                    okk = kc.flat(i) == kv[i];
+                if (!okk)
+                    R.violation("C14", "k_coef_getter", JObj().raw("grid", g.json(10)).s("k_class", kcls).s("detail", "k_coef() does not return the configured diffusivity").str());
+            }
             int cls = static_cast<int>(rng.below(n_field_classes));
             std::vector<double> z = gen_field_spec(rng, g, ref, cls);
             ch.vec(z);
